@@ -508,14 +508,24 @@ fn scripts_for(ctx: &Ctx, ik: IK, depth_full: usize, depth_red: usize, nrandom: 
     let mut out: Vec<(Vec<Call>, Term)> = vec![];
     let full = alphabet(true, with_idx);
     let red = alphabet(false, with_idx && false);
-    // depth 0 and 1: all terms
-    for t in TERMS {
-        out.push((vec![], t));
+    // depth 0 and 1: all terms (under Miri: one rotating term per script)
+    let mut h = 0usize;
+    if ctx.scale == Scale::Miri {
+        for t in TERMS {
+            out.push((vec![], t));
+        }
         for a in &full {
-            out.push((vec![*a], t));
+            h += 1;
+            out.push((vec![*a], TERMS[h % 7]));
+        }
+    } else {
+        for t in TERMS {
+            out.push((vec![], t));
+            for a in &full {
+                out.push((vec![*a], t));
+            }
         }
     }
-    let mut h = 0usize;
     if depth_full >= 2 {
         for a in &full {
             for b in &full {
